@@ -166,20 +166,26 @@ Examples:
     has_base = isinstance(variables, str)
     lo = '%s >= %s'
     hi = '%s <= %s'
+    eq = '%s = %s'
     if has_base:
         lo = variables + lo
         hi = variables + hi
-        imin = enumerate(min)
-        imax = enumerate(max)
+        eq = variables + eq
+        names = range(len(min))
     else:
         if len(min) != len(variables):
             raise ValueError("variables is not consistent with bounds")
-        imin = zip(variables, min)
-        imax = zip(variables, max)
+        names = variables
+    # where the bounds coincide, the variable is fixed (use an equality)
+    fixed = [bool(j == k) for (j,k) in zip(min, max)]
+    imin = [(i,j) for (i,j,f) in zip(names, min, fixed) if not f]
+    imax = [(i,j) for (i,j,f) in zip(names, max, fixed) if not f]
+    ieq = [(i,j) for (i,j,f) in zip(names, min, fixed) if f]
     #NOTE: we are stripping off leading zeros
     lo = '\n'.join(lo % (i,str(float(j)).lstrip('0')) for (i,j) in imin if j != -inf)
     hi = '\n'.join(hi % (i,str(float(j)).lstrip('0')) for (i,j) in imax if j != inf)
-    return '\n'.join([lo, hi]).strip()
+    eq = '\n'.join(eq % (i,str(float(j)).lstrip('0')) for (i,j) in ieq)
+    return '\n'.join(i for i in [lo, hi, eq] if i).strip()
 
 
 def comparator(equation):
